@@ -13,7 +13,7 @@ def run(c):
               "wake-on-drop guard, task.return}; host directives {callee advances, deliver subtask event, deliver stream-end event, wake / "
               "drop a captured waker from outside, start a task, EVENT_CANCEL}; three feature builds default / async-spawn / "
               "inter-task-wakeup; non-trivial = some callback answered WAIT or YIELD (or block_on waited); distinct by trace")
-    n = 2500 if c.tier == "quick" else 40000
+    n = 2500 if c.tier == "quick" else 150000
     maxbody = 10 if c.tier == "quick" else 16
     exec_common.run_exec(c, "C22", ["default", "async-spawn", "inter-task-wakeup"], n, maxbody, "Witverif.Props.C22")
     c.assumptions += [
